@@ -5,11 +5,18 @@ end-to-end theorem applies to it.
 -/
 namespace NA.Nsx
 
-/-- Address lists a call carries have no duplicates. -/
+/-- Inline service entries of a rule are compact JSON. -/
+def Rule.compact (r : Rule) : Prop := compactJSON r.attrs.svcEntries = r.attrs.svcEntries
+
+/-- What a call carries is in normal form: address lists without duplicates, rules with compact
+inline service entries. -/
 def Call.addrsOk : Call → Prop
   | .putGroup _ _ _ a => a.Nodup
   | .patchExpr _ _ _ a => a.Nodup
   | .postAddrs _ _ true a => a.Nodup
+  | .putRule _ _ r => r.compact
+  | .patchRule _ _ r => r.compact
+  | .putPolicy _ rs => ∀ r ∈ rs, r.compact
   | _ => True
 
 def AddrsNodup (S : Store) : Prop := ∀ g ∈ S.groups, g.addrs.Nodup
@@ -149,6 +156,136 @@ theorem exec_addrs {S S' : Store} {c : Call} (hw : WF S) (h : AddrsNodup S) (hc 
       · cases hex
       · rw [← ok_inj hex]; exact h
 
+/-- Rules of managed policies have compact inline service entries. -/
+def AllCompact (S : Store) : Prop := ∀ p ∈ S.policies, managed p.id = true → ∀ r ∈ p.rules, r.compact
+
+/-- The manager stores rules as they are sent: compact inline service entries stay compact. -/
+theorem exec_compact {S S' : Store} {c : Call} (h : AllCompact S) (hc : c.addrsOk) (hex : exec S c = .ok S') :
+    AllCompact S' := by
+  have hset : ∀ (pid : String) (F : List Rule → List Rule), (∀ rs, (∀ r ∈ rs, r.compact) → ∀ r ∈ F rs, r.compact) →
+      AllCompact { S with policies := setRules S.policies pid F } := by
+    intro pid F hF p' hp' hm r hr
+    obtain ⟨p, hp, hcase⟩ := mem_setRules hp'
+    rcases hcase with ⟨_, e⟩ | ⟨_, e⟩
+    · rw [e] at hr hm; exact hF p.rules (h p hp hm) r hr
+    · rw [e] at hr hm; exact h p hp hm r hr
+  cases c with
+  | putService id d =>
+    simp only [exec] at hex; split at hex
+    · cases hex
+    · rw [← ok_inj hex]; exact h
+  | patchService id d =>
+    simp only [exec] at hex; split at hex
+    · cases hex
+    · rw [← ok_inj hex]; exact h
+  | deleteService id =>
+    simp only [exec] at hex; split at hex
+    · cases hex
+    · split at hex
+      · cases hex
+      · rw [← ok_inj hex]; exact h
+  | putGroup id e t addrs =>
+    simp only [exec] at hex; split at hex
+    · cases hex
+    · rw [← ok_inj hex]; exact h
+  | postAddrs gid e add addrs =>
+    simp only [exec] at hex
+    split at hex
+    · cases hex
+    · split at hex
+      · cases hex
+      · split at hex
+        · split at hex
+          · cases hex
+          · rw [← ok_inj hex]; exact h
+        · split at hex
+          · cases hex
+          · rw [← ok_inj hex]; exact h
+  | patchExpr gid e t addrs =>
+    simp only [exec] at hex
+    split at hex
+    · cases hex
+    · split at hex
+      · cases hex
+      · rw [← ok_inj hex]; exact h
+  | deleteGroup id =>
+    simp only [exec] at hex; split at hex
+    · cases hex
+    · split at hex
+      · cases hex
+      · rw [← ok_inj hex]; exact h
+  | putPolicy id rules =>
+    simp only [exec] at hex; split at hex
+    · cases hex
+    · split at hex
+      · cases hex
+      · split at hex
+        · cases hex
+        · rw [← ok_inj hex]
+          intro p hp hm r hr
+          rcases List.mem_append.mp hp with hp | hp
+          · exact h p hp hm r hr
+          · simp at hp; subst hp; exact hc r hr
+  | deletePolicy id =>
+    simp only [exec] at hex; split at hex
+    · cases hex
+    · rw [← ok_inj hex]
+      intro p hp hm r hr
+      exact h p (List.mem_filter.mp hp).1 hm r hr
+  | putRule pid rid r =>
+    simp only [exec] at hex; split at hex
+    · cases hex
+    · split at hex
+      · cases hex
+      · split at hex
+        · cases hex
+        · rw [← ok_inj hex]
+          apply hset
+          intro rs hrs x hx
+          rcases List.mem_append.mp hx with hx | hx
+          · exact hrs x hx
+          · simp at hx; subst hx; exact hc
+  | patchRule pid rid r =>
+    simp only [exec] at hex; split at hex
+    · cases hex
+    · split at hex
+      · cases hex
+      · split at hex
+        · cases hex
+        · rw [← ok_inj hex]
+          apply hset
+          intro rs hrs x hx
+          obtain ⟨y, hy, e⟩ := List.mem_map.mp hx
+          by_cases hid : y.id = rid
+          · simp only [hid, beq_self_eq_true, if_true] at e
+            rw [← e]; exact hc
+          · have : (y.id == rid) = false := by simpa using hid
+            simp only [this, Bool.false_eq_true, if_false] at e
+            rw [← e]; exact hrs y hy
+  | deleteRule pid rid =>
+    simp only [exec] at hex; split at hex
+    · cases hex
+    · split at hex
+      · cases hex
+      · rw [← ok_inj hex]
+        apply hset
+        intro rs hrs x hx
+        exact hrs x (List.mem_filter.mp hx).1
+
+theorem run_compact : ∀ (cs : List Call) (S S' : Store), AllCompact S → (∀ c ∈ cs, c.addrsOk) →
+    run S cs = some S' → AllCompact S' := by
+  intro cs
+  induction cs with
+  | nil => intro S S' h _ hr; simp [run] at hr; rw [← hr]; exact h
+  | cons c rest ih =>
+    intro S S' h hc hr
+    simp only [run] at hr
+    cases he : exec S c with
+    | error e => simp [he] at hr
+    | ok S1 =>
+      simp only [he] at hr
+      exact ih S1 S' (exec_compact h (hc c List.mem_cons_self) he) (fun c' hc' => hc c' (List.mem_cons_of_mem _ hc')) hr
+
 theorem run_wf_addrs : ∀ (cs : List Call) (S S' : Store), WF S → AddrsNodup S → (∀ c ∈ cs, c.addrsOk) →
     run S cs = some S' → WF S' ∧ AddrsNodup S' := by
   intro cs
@@ -264,12 +401,13 @@ theorem stepItems_aok {ctx : Ctx} (hs : AddrCtx ctx) : ∀ (items : List Item) (
     | del ra => exact AOk.single trivial
     | ins rb =>
       simp only [stepItem]
-      exact ((adaptGroup_aok hs _ _).append (adaptGroup_aok hs _ _)).append (AOk.single trivial)
+      exact ((adaptGroup_aok hs _ _).append (adaptGroup_aok hs _ _)).append
+        (AOk.single (by show compactJSON (compactJSON _) = compactJSON _; exact compactJSON_idem _))
     | eq ra rb =>
       simp only [stepItem]
       refine ((equalize_aok hs _ _ _).append (equalize_aok hs _ _ _)).append ?_
       split
-      · exact AOk.single trivial
+      · exact AOk.single (by show compactJSON (compactJSON _) = compactJSON _; exact compactJSON_idem _)
       · exact AOk.nil
 
 theorem diffRules_aok {ctx : Ctx} (hs : AddrCtx ctx) (st : PSt) (pa pb : Policy) : AOk (diffRules ctx st pa pb).2 := by
@@ -289,6 +427,18 @@ theorem adaptRules_aok {ctx : Ctx} (hs : AddrCtx ctx) : ∀ (rules : List Rule) 
     intro st
     simp only [adaptRules]
     exact ((adaptGroup_aok hs _ _).append (adaptGroup_aok hs _ _)).append (ih _)
+
+theorem adaptRules_compact (ctx : Ctx) : ∀ (rules : List Rule) (st : PSt),
+    ∀ r ∈ (adaptRules ctx st rules).2.2, r.compact := by
+  intro rules
+  induction rules with
+  | nil => intro st r hr; simp [adaptRules] at hr
+  | cons x rest ih =>
+    intro st r hr
+    simp only [adaptRules] at hr
+    rcases List.mem_cons.mp hr with e | e
+    · subst e; exact compactJSON_idem _
+    · exact ih _ r e
 
 theorem overA_aok {ctx : Ctx} (hs : AddrCtx ctx) (T : Config) : ∀ (ps : List Policy) (st : PSt),
     AOk (overA ctx T ps st).2 := by
@@ -323,7 +473,7 @@ theorem overB_aok {ctx : Ctx} (hs : AddrCtx ctx) (A : Config) : ∀ (ps : List P
       simp only [h', Bool.false_eq_true, if_false]
       refine AOk.append ?_ (ih _)
       simp only [createPolicy]
-      exact (adaptRules_aok hs _ _).append (AOk.single trivial)
+      exact (adaptRules_aok hs _ _).append (AOk.single (adaptRules_compact ctx _ _))
 
 theorem planSvc_aok (aS : List Service) : ∀ (bS : List Service) (seen : List String), AOk (planSvc aS bS seen).1 := by
   intro bS
